@@ -386,7 +386,7 @@ func splitPeriod(mpd *m.MPD, a *asset, cfg *ResponseConfig, wTimes wrapTimes) er
 	}
 	periodDur := 3600 / *cfg.PeriodsPerHour
 	if periodDur*1000%a.SegmentDurMS != 0 {
-		return fmt.Errorf("period duration %ds not a multiple of segment duration %dms", periodDur, a.SegmentDurMS)
+		return errPeriodDuration{periodDur, a.SegmentDurMS}
 	}
 
 	// Periods are counted from availabilityStartTime, like Period@start and the media timeline
